@@ -998,9 +998,22 @@ class _token_runner:
         parens = 0
         brackets = 0
         braces = 0
+        # The nesting each nested `lambda` whose parameter list is still open was met at: the
+        # commas (and the colon) of `lambda a, b: ...` belong to that lambda.
+        lambda_heads: List[Tuple[int, int, int]] = []
 
         for t in self._tokenizer:
             self.last_token = t
+            in_nested_parameters = (
+                len(lambda_heads) > 0 and lambda_heads[-1] == (parens, brackets, braces)
+            )
+            if t.type == tokenize.NAME and t.string == "lambda":
+                lambda_heads.append((parens, brackets, braces))
+            elif in_nested_parameters and t.type == tokenize.OP and t.string in (",", ":"):
+                if t.string == ":":
+                    lambda_heads.pop()
+                yield t
+                continue
             if (
                 t.type in stop_condition
                 and t.string in stop_condition[t.type]
